@@ -67,10 +67,13 @@ type C19Case struct {
 	// HangUp: the server closes the connection as soon as it has sent and received everything (in-memory
 	// connection only: a TCP reset may legitimately discard unread data)
 	HangUp bool `json:"hang_up,omitempty"`
-	Refuse bool `json:"refuse"` // the LoginChecker refuses the player
-	TCP    bool `json:"tcp"`    // loopback TCP instead of the in-memory duplex
-	Ping   bool `json:"ping"`   // also perform a status ping (TCP)
-	Chunk  int  `json:"chunk"`
+	// ClaimUUID: the account UUID the bot is configured with (sent in the login start); in offline mode the
+	// player's UUID is the offline UUID of the name all the same
+	ClaimUUID string `json:"claim_uuid,omitempty"`
+	Refuse    bool   `json:"refuse"` // the LoginChecker refuses the player
+	TCP       bool   `json:"tcp"`    // loopback TCP instead of the in-memory duplex
+	Ping      bool   `json:"ping"`   // also perform a status ping (TCP)
+	Chunk     int    `json:"chunk"`
 }
 
 // ---- server side harness ----------------------------------------------------------------------------
@@ -292,6 +295,10 @@ func c19Check(c C19Case) *pbt.Violation {
 	// ---- join
 	client := bot.NewClient()
 	client.Auth.Name = c.Name
+	if c.ClaimUUID != "" {
+		// an offline-mode server does not take the client's word for its UUID
+		client.Auth.UUID = c.ClaimUUID
+	}
 	// handlers, registered group by group
 	var mu sync.Mutex
 	var log []c19Call
@@ -472,6 +479,9 @@ func genC19(t *rapid.T) C19Case {
 	c.Threshold = rapid.SampledFrom([]int{-1, 0, 1, 64, 256, 1 << 20}).Draw(t, "thr")
 	c.Refuse = rapid.IntRange(0, 9).Draw(t, "refuse") == 4
 	c.HangUp = rapid.Bool().Draw(t, "hang_up")
+	if rapid.IntRange(0, 2).Draw(t, "claims_uuid") == 1 {
+		c.ClaimUUID = rapid.SampledFrom([]string{"11111111-2222-3333-4444-555555555555", "ffffffff-ffff-4fff-bfff-ffffffffffff", "00000000-0000-0000-0000-000000000001", "069a79f4-44e9-4726-a5be-fca90e38aaf5"}).Draw(t, "claim_uuid")
+	}
 	c.TCP = rapid.IntRange(0, 9).Draw(t, "tcp") == 4
 	if c.TCP {
 		c.HangUp = false
@@ -557,7 +567,7 @@ var c19Prop = pbt.Register(pbt.Prop[C19Case]{
 				break
 			}
 		}
-		for k, v := range map[string]bool{"server_hangs_up_after_last_packet": c.HangUp, "refuse": c.Refuse, "tcp": c.TCP, "ping": c.Ping, "handler_fails": c.FailAt >= 0} {
+		for k, v := range map[string]bool{"server_hangs_up_after_last_packet": c.HangUp, "client_claims_another_uuid": c.ClaimUUID != "", "refuse": c.Refuse, "tcp": c.TCP, "ping": c.Ping, "handler_fails": c.FailAt >= 0} {
 			if v {
 				labels = append(labels, k)
 			}
